@@ -672,3 +672,102 @@ def _horseshoe(rng, nx, ny, sym):
         ints += [s["mesh"].shape[0], s["mesh"].shape[1]]
     return dict(factory=lambda: HorseshoeCirculations(surfaces=ss), ints=ints, consts=[],
                 inputs=OrderedDict(circulations=rng.normal(size=N)), outputs=["horseshoe_circulations"])
+
+
+# ---------------------------------------------------------------------------------------
+# Prandtl-Glauert transformation components, MPhys (de)multiplexers
+# ---------------------------------------------------------------------------------------
+@spec("PGRotateTo", op="PGRotate")
+def _pg_rotate_to(rng, nx, ny, sym):
+    from openaerostruct.aerodynamics.pg_wind_rotation import RotateToWindFrame
+    ss = _vlm_surfs(rng, nx, ny, sym, ns=1)
+    s = ss[0]; m = s["mesh"]; N = (m.shape[0] - 1) * (m.shape[1] - 1)
+    inp = OrderedDict(alpha=np.array([np.radians(rng.uniform(-15, 15))]), beta=np.array([np.radians(rng.uniform(-15, 15))]))
+    inp["coll_pts"] = rng.normal(size=(N, 3)); inp["force_pts"] = rng.normal(size=(N, 3)); inp["bound_vecs"] = rng.normal(size=(N, 3))
+    inp[s["name"] + "_def_mesh"] = m; inp[s["name"] + "_normals"] = rng.normal(size=(m.shape[0] - 1, m.shape[1] - 1, 3))
+    npts = 3 * N + m.shape[0] * m.shape[1] + N
+    return dict(factory=lambda: RotateToWindFrame(surfaces=ss, rotational=False), ints=[npts, 1], consts=[], inputs=inp,
+                outputs=["coll_pts_w_frame", "force_pts_w_frame", "bound_vecs_w_frame", s["name"] + "_def_mesh_w_frame",
+                         s["name"] + "_normals_w_frame"])
+
+
+@spec("PGRotateFrom", op="PGRotate")
+def _pg_rotate_from(rng, nx, ny, sym):
+    from openaerostruct.aerodynamics.pg_wind_rotation import RotateFromWindFrame
+    ss = _vlm_surfs(rng, nx, ny, sym, ns=1)
+    s = ss[0]; m = s["mesh"]; N = (m.shape[0] - 1) * (m.shape[1] - 1)
+    inp = OrderedDict(alpha=np.array([np.radians(rng.uniform(-15, 15))]), beta=np.array([np.radians(rng.uniform(-15, 15))]))
+    inp[s["name"] + "_sec_forces_w_frame"] = rng.normal(size=(m.shape[0] - 1, m.shape[1] - 1, 3)) * 1e3
+    return dict(factory=lambda: RotateFromWindFrame(surfaces=ss), ints=[N, 0], consts=[], inputs=inp, outputs=[s["name"] + "_sec_forces"])
+
+
+@spec("PGScaleFrom", op="PGScale")
+def _pg_scale_from(rng, nx, ny, sym):
+    from openaerostruct.aerodynamics.pg_scale import ScaleFromPrandtlGlauert
+    ss = _vlm_surfs(rng, nx, ny, sym, ns=1)
+    s = ss[0]; m = s["mesh"]; N = (m.shape[0] - 1) * (m.shape[1] - 1)
+    inp = OrderedDict(Mach_number=np.array([rng.uniform(0, 0.94)]))
+    inp[s["name"] + "_sec_forces_pg"] = rng.normal(size=(m.shape[0] - 1, m.shape[1] - 1, 3)) * 1e3
+    return dict(factory=lambda: ScaleFromPrandtlGlauert(surfaces=ss), ints=[N, 2], consts=[], inputs=inp,
+                outputs=[s["name"] + "_sec_forces_w_frame"])
+
+
+@spec("PGScaleToGeom", op="PGScale")
+def _pg_scale_to(rng, nx, ny, sym):
+    from openaerostruct.aerodynamics.pg_scale import ScaleToPrandtlGlauert
+    ss = _vlm_surfs(rng, nx, ny, sym, ns=1)
+    s = ss[0]; m = s["mesh"]; N = (m.shape[0] - 1) * (m.shape[1] - 1)
+    inp = OrderedDict(Mach_number=np.array([rng.uniform(0, 0.94)]))
+    inp["coll_pts_w_frame"] = rng.normal(size=(N, 3)); inp["force_pts_w_frame"] = rng.normal(size=(N, 3)); inp["bound_vecs_w_frame"] = rng.normal(size=(N, 3))
+    inp[s["name"] + "_def_mesh_w_frame"] = m
+    # the normals are a separate op kind; fed as zeros here so that their (different) scaling is not compared in this case
+    inp_n = rng.normal(size=(m.shape[0] - 1, m.shape[1] - 1, 3))
+    full = OrderedDict(inp); full[s["name"] + "_normals_w_frame"] = inp_n * 0.0
+    npts = 3 * N + m.shape[0] * m.shape[1]
+    return dict(factory=lambda: ScaleToPrandtlGlauert(surfaces=ss, rotational=False), ints=[npts, 0], consts=[], inputs=inp,
+                outputs=["coll_pts_pg", "force_pts_pg", "bound_vecs_pg", s["name"] + "_def_mesh_pg"],
+                extra_inputs={s["name"] + "_normals_w_frame": inp_n})
+
+
+@spec("PGScaleToNormals", op="PGScale")
+def _pg_scale_normals(rng, nx, ny, sym):
+    from openaerostruct.aerodynamics.pg_scale import ScaleToPrandtlGlauert
+    ss = _vlm_surfs(rng, nx, ny, sym, ns=1)
+    s = ss[0]; m = s["mesh"]; N = (m.shape[0] - 1) * (m.shape[1] - 1)
+    inp = OrderedDict(Mach_number=np.array([rng.uniform(0, 0.94)]))
+    inp[s["name"] + "_normals_w_frame"] = rng.normal(size=(m.shape[0] - 1, m.shape[1] - 1, 3))
+    extra = {"coll_pts_w_frame": rng.normal(size=(N, 3)), "force_pts_w_frame": rng.normal(size=(N, 3)),
+             "bound_vecs_w_frame": rng.normal(size=(N, 3)), s["name"] + "_def_mesh_w_frame": m}
+    return dict(factory=lambda: ScaleToPrandtlGlauert(surfaces=ss, rotational=False), ints=[N, 1], consts=[], inputs=inp,
+                outputs=[s["name"] + "_normals_pg"], extra_inputs=extra)
+
+
+def _mphys_ok():
+    try:
+        import mphys  # noqa: F401
+        return True
+    except Exception:
+        return False
+
+
+@spec("Demux", op="Mux", sym_opts=(False,), jac=False)
+def _demux(rng, nx, ny, sym):
+    from openaerostruct.mphys.demux_surface_mesh import DemuxSurfaceMesh
+    from mphys.core import MPhysVariables
+    ss = _vlm_surfs(rng, nx, ny, sym, ns=int(rng.integers(1, 4)))
+    sizes = [s["mesh"].size for s in ss]
+    flat = rng.normal(size=sum(sizes))
+    return dict(factory=lambda: DemuxSurfaceMesh(surfaces=ss), ints=[0, len(ss)] + sizes, consts=[],
+                inputs=OrderedDict([(MPhysVariables.Aerodynamics.Surface.COORDINATES, flat)]),
+                outputs=[s["name"] + "_def_mesh" for s in ss])
+
+
+@spec("MuxForces", op="Mux", sym_opts=(False,), jac=False)
+def _mux(rng, nx, ny, sym):
+    from openaerostruct.mphys.mux_surface_forces import MuxSurfaceForces
+    from mphys.core import MPhysVariables
+    ss = _vlm_surfs(rng, nx, ny, sym, ns=int(rng.integers(1, 4)))
+    sizes = [s["mesh"].size for s in ss]
+    inp = OrderedDict((s["name"] + "_mesh_point_forces", rng.normal(size=s["mesh"].shape)) for s in ss)
+    return dict(factory=lambda: MuxSurfaceForces(surfaces=ss), ints=[1, len(ss)] + sizes, consts=[], inputs=inp,
+                outputs=[MPhysVariables.Aerodynamics.Surface.LOADS])
